@@ -83,6 +83,11 @@ def real_cases(menu, filters_index):
         dict(prefix=[], threads=[{"k": "store", "a": 1}, {"k": "store", "a": 11}, {"k": "get", "a": 1}]),
         dict(prefix=[{"k": "store", "a": 2}], threads=[{"k": "store", "a": 1}, {"k": "store", "a": 11}, {"k": "query", "f": q["ids1_2"]}]),
         dict(prefix=[], threads=[{"k": "store", "a": 5}, {"k": "store", "a": 12}, {"k": "get", "a": 5}]),
+        # queries that walk several index ranges (authors, author-kind pairs, author-tag pairs) while both stores commit
+        dict(prefix=[], threads=[{"k": "store", "a": 1}, {"k": "store", "a": 2}, {"k": "query", "f": q["authors12"]}]),
+        dict(prefix=[], threads=[{"k": "store", "a": 1}, {"k": "store", "a": 2}, {"k": "query", "f": q["authors12_k1"]}]),
+        dict(prefix=[], threads=[{"k": "store", "a": 1}, {"k": "store", "a": 2}, {"k": "query", "f": q["authors12_tx"]}]),
+        dict(prefix=[], threads=[{"k": "store", "a": 1}, {"k": "store", "a": 9}, {"k": "query", "f": q["kinds_tx"]}]),
     ]
 
 
@@ -188,8 +193,11 @@ def run(prop, tier, seed, replay=None):
     s_t = u["strs"].index(b"t".hex())
     s_x = u["strs"].index(b"x".hex())
     flist = [F.flt(ids=[1, 3]), F.flt(ids=[1, 2]), F.flt(ids=[1, 10]), F.flt(authors=[1]), F.flt(authors=[1], kinds=[30000]),
-             F.flt(tags=[(s_t, [s_x])]), F.flt(ids=[1, 2, 3, 4, 5, 6]), F.flt(authors=[1, 2], limit=3)]
-    q = dict(ids1_3=0, ids1_2=1, ids1_10=2, authorA=3, authorA_k30000=4, tag_t_x=5, ids_many=6, authors_limit=7)
+             F.flt(tags=[(s_t, [s_x])]), F.flt(ids=[1, 2, 3, 4, 5, 6]), F.flt(authors=[1, 2], limit=3),
+             F.flt(authors=[1, 2]), F.flt(authors=[1, 2], kinds=[1]), F.flt(authors=[1, 2], tags=[(s_t, [s_x])]),
+             F.flt(kinds=[1, 1059], tags=[(s_t, [s_x]), (u["strs"].index(b"p".hex()), [u["pk_sidx"][0]])])]
+    q = dict(ids1_3=0, ids1_2=1, ids1_10=2, authorA=3, authorA_k30000=4, tag_t_x=5, ids_many=6, authors_limit=7,
+             authors12=8, authors12_k1=9, authors12_tx=10, kinds_tx=11)
     fpath = os.path.join(wd, "filters.json")
     json.dump(flist, open(fpath, "w"))
 
@@ -214,6 +222,25 @@ def run(prop, tier, seed, replay=None):
                 ss = scheds if per_case is None or per_case >= len(scheds) else rnd.sample(scheds, per_case)
                 for sc in ss:
                     cases.append(dict(prefix=rc["prefix"], threads=rc["threads"], sched=sc, mode="sched", rounds=1, menu=menu))
+                # finer than the model (drift-tolerant): (1) every operation paused at each of its yield points while the
+                # others run to completion in every order (one pre-emption, exhaustive over pause points); (2) seeded
+                # sequences of single park-to-park segments ("next")
+                n = len(rc["threads"])
+                import itertools
+                maxk = 16 if tier == "quick" else 30
+                for t in range(1, n + 1):
+                    others = [o for o in range(1, n + 1) if o != t]
+                    for k in range(1, maxk + 1):
+                        for order in itertools.permutations(others):
+                            for upto in range(1, len(order) + 1):
+                                sc = [dict(t=t, p="next") for _ in range(k)] + [dict(t=o, p="end") for o in order[:upto]] + [dict(t=t, p="end")]
+                                cases.append(dict(prefix=rc["prefix"], threads=rc["threads"], sched=sc, mode="sched", rounds=1,
+                                                  menu=menu + "-pause"))
+                for _ in range(10 if tier == "quick" else 300):
+                    first = rnd.randint(1, n)
+                    sc = [dict(t=first, p="next") for _ in range(rnd.randint(0, 14))]
+                    sc += [dict(t=rnd.randint(1, n), p="next") for _ in range(rnd.randint(5, 40))]
+                    cases.append(dict(prefix=rc["prefix"], threads=rc["threads"], sched=sc, mode="sched", rounds=1, menu=menu + "-fine"))
         cases += stress_cases(rnd, 12 if tier == "quick" else 60, 150 if tier == "quick" else 1500, q)
         rnd.shuffle(cases)
         for i, c in enumerate(cases):
